@@ -4,7 +4,7 @@
    Spec : Model/WsSpec.v (whole-stream RFC 6455 / RFC 7692 reference decoder).
    The decompressor is a parameter (Cx, decomp) of every theorem; `toycx/toy_decomp` instantiate it. *)
 From AV Require Import Lib.Base Lib.Utf8 Lib.Utf8Valid Generated.WsGen Model.Ws Model.WsSpec
-  Proofs.WsSeg Proofs.WsRefine Proofs.WsClasses.
+  Proofs.WsSeg Proofs.WsRefine Proofs.WsClasses Proofs.WsMem.
 Open Scope N_scope.
 
 (* ---- 1. the outcome does not depend on segmentation (FULL, all codecs, all streams, all cuts) ---- *)
@@ -94,6 +94,15 @@ Theorem C12_profile_gap_close :
 Proof. exact profile_gap_close. Qed.
 Print Assumptions C12_profile_gap_close.
 
+(* the comparisons regenerated from the source are exactly the deviations recorded as open findings
+   (known_quirks_profile is written by hand in Model/WsSpec.v and is what the harness explains deviations with) *)
+Theorem C12_code_comparisons_are_the_known_quirks :
+  (forall mx n, wire_too_big aiohttp_profile mx n = wire_too_big known_quirks_profile mx n) /\
+  (forall mx n, msg_too_big aiohttp_profile mx n = msg_too_big known_quirks_profile mx n) /\
+  (forall code, close_ok aiohttp_profile code = close_ok known_quirks_profile code).
+Proof. exact aiohttp_is_known_quirks. Qed.
+Print Assumptions C12_code_comparisons_are_the_known_quirks.
+
 (* ---- 3. nothing after the violation; the functions are total ---------------------------------- *)
 Theorem C12_nothing_after_violation :
   forall (Cx : Type) (decomp : Cx -> bytes -> N -> dres Cx) (c : cfg) (e : werr) (segs : list bytes),
@@ -141,7 +150,48 @@ Theorem C12_oversize_refused_before_buffering :
 Proof. exact oversize_rejected. Qed.
 Print Assumptions C12_oversize_refused_before_buffering.
 
-(* ---- 5. the UTF-8 validator is exactly "is an encoding" ---------------------------------------- *)
+(* ---- 5. memory: bounded by max_msg_size plus a constant, for every stream and segmentation (FULL) ---- *)
+(* retained s = len(_partial) + total length of _payload_fragments + len(_tail) *)
+Theorem C12_memory_bound :
+  forall (Cx : Type) (decomp : Cx -> bytes -> N -> dres Cx) (c : cfg),
+    max_msg_size c <> 0 ->
+    forall (cx0 : Cx) (segs : list bytes) (s : rstate Cx),
+      snd (feed_all Cx decomp c (Live (init_state Cx cx0)) segs) = Live s ->
+      retained Cx s < max_msg_size c + 126.
+Proof. exact retained_bounded. Qed.
+Print Assumptions C12_memory_bound.
+
+(* a 100-byte limit, 60 bytes collected, a 39-byte frame half received, byte at a time: hypotheses hold, 80 bytes kept *)
+Example C12_memory_bound_nonvacuous :
+  let c := mkcfg 100 false false in
+  let stream := [2; 60] ++ repeat 7 60 ++ [0; 39] ++ repeat 9 20 in
+  match snd (feed_all toycx toy_decomp c (Live (init_state toycx toy0)) (map (fun b => [b]) stream)) with
+  | Live s => retained toycx s = 80 /\ s_toread s = 19
+  | _ => False
+  end.
+Proof. vm_compute. split; reflexivity. Qed.
+Print Assumptions C12_memory_bound_nonvacuous.
+
+(* ... even under decompression: the reader never asks the codec for more than max_msg_size + 1 bytes; the codec
+   is assumed to honour max_length (premise; validated for zlib by the harness, proved for the toy codec) *)
+Theorem C12_inflation_bounded :
+  forall (Cx : Type) (decomp : Cx -> bytes -> N -> dres Cx) (c : cfg),
+    max_msg_size c <> 0 ->
+    (forall cx d cap out cx', cap <> 0 -> decomp cx d cap = DOk out cx' -> lenN out <= cap) ->
+    forall (cx : Cx) (assembled : bytes),
+      match decomp cx (assembled ++ WS_DEFLATE_TRAILING) (inflate_cap (max_msg_size c)) with
+      | DOk out _ => lenN out <= max_msg_size c + 1
+      | _ => True
+      end.
+Proof. exact inflate_request_bounded. Qed.
+Print Assumptions C12_inflation_bounded.
+
+Theorem C12_toy_codec_honours_cap :
+  forall cx d cap out cx', cap <> 0 -> toy_decomp cx d cap = DOk out cx' -> lenN out <= cap.
+Proof. exact toy_decomp_cap. Qed.
+Print Assumptions C12_toy_codec_honours_cap.
+
+(* ---- 6. the UTF-8 validator is exactly "is an encoding" ---------------------------------------- *)
 Theorem C12_utf8_encodings_valid :
   forall (s : str) (b : bytes), utf8_encode s = Some b -> utf8_valid b = true.
 Proof. exact utf8_encode_valid. Qed.
